@@ -64,7 +64,10 @@ def active():
 
 
 class Explorer:
-    def __init__(self, max_paths=4096, prune=True, prune_timeout=5.0, max_int_fork=64, name=""):
+    def __init__(self, max_paths=4096, prune=True, prune_timeout=5.0, max_int_fork=64, name="", guide=None):
+        # guide: node -> bool.  With a guide the explorer follows ONE path, the one a chosen valuation of the inputs takes (every
+        # decision is still recorded in the path condition, so obligations on that path hold for all inputs that take it).
+        self.guide = guide
         self.max_paths = max_paths
         self.prune = prune
         self.prune_timeout = prune_timeout
@@ -112,6 +115,13 @@ class Explorer:
                 raise Unmodelled("non-deterministic replay (expected a boolean decision)")
             self._pos += 1
             p.decisions.append((kind, val))
+            p.pc.append(n if val else neg)
+            return val
+        if self.guide is not None:
+            val = bool(self.guide(n))
+            self._prefix = self._decisions_so_far() + [("f", val)]
+            self._pos = len(self._prefix)
+            p.decisions.append(("f", val))
             p.pc.append(n if val else neg)
             return val
         ft = self._feasible(n)
